@@ -189,7 +189,7 @@ def run(ctx):
     R = Result('C04')
     items = [('%s/%s' % p, p, '%s-%d' % (p[0], ctx.seed)) for p in sample_pairs(ctx, ctx.n(15, 10 ** 6))]
     for i in range(ctx.n(30, 1500)):
-        items.append(('gen%d' % i, genbasis.gen_basis(ctx.rng), 'g%d' % i))
+        items.append(('gen%d' % i, genbasis.gen_basis(ctx.rng, kinds=(['ecpgap', 'ecpsingle', 'plain'] if i % 6 == 5 else None)), 'g%d' % i))
     reqs, meta = [], []
     B = 450
     for i in range(0, len(items), B):
